@@ -238,6 +238,32 @@ func c09Range(c *Ctx, rule string) {
 		if !okL || !okH {
 			return false, fmt.Sprintf("%s is not bounded on this path", vstrOf(v))
 		}
+		// the zone keeps intervals only: a disequality with an end of the interval (mate == math.MinInt8 handled
+		// by its own branch) moves that end inwards
+		for changed := true; changed; {
+			changed = false
+			for _, f := range st.Facts {
+				s, ok := f.Cond.(*absint.Sym)
+				if !ok || len(s.Args) != 2 || !((s.Op == "==" && !f.Truth) || (s.Op == "!=" && f.Truth)) {
+					continue
+				}
+				for i := 0; i < 2; i++ {
+					if vstrOf(s.Args[i]) != vstrOf(v) {
+						continue
+					}
+					if k, ok := absint.ConstInt(s.Args[1-i]); ok {
+						if k == l && l < h {
+							l++
+							changed = true
+						}
+						if k == h && l < h {
+							h--
+							changed = true
+						}
+					}
+				}
+			}
+		}
 		if l < lo || h > hi {
 			return false, fmt.Sprintf("%s ranges over [%d,%d]", vstrOf(v), l, h)
 		}
